@@ -1,0 +1,15 @@
+//go:build verif
+
+package iputil
+
+// Thin exports for the verification harness (engine reject).
+
+func VerifTcpipChecksum(data []byte, csum uint32) uint16 { return tcpipChecksum(data, csum) }
+
+func VerifIPv4PseudoheaderChecksum(src, dst []byte, proto, length uint32) uint32 {
+	return ipv4PseudoheaderChecksum(src, dst, proto, length)
+}
+
+func VerifIPv6PseudoheaderChecksum(src, dst []byte, proto, length uint32) uint32 {
+	return ipv6PseudoheaderChecksum(src, dst, proto, length)
+}
